@@ -26,6 +26,8 @@ pub struct Cfg {
     pub seeds: Vec<Vec<usize>>,
     /// oracles to evaluate ("C02", ...)
     pub props: BTreeSet<&'static str>,
+    /// nodes whose advertise address is an IPv4-mapped IPv6 address (::ffff:127.0.0.1)
+    pub mapped_addr_nodes: Vec<usize>,
 }
 
 impl Cfg {
@@ -37,12 +39,13 @@ impl Cfg {
         }
         Cfg {
             n,
-            keys: vec!["a".to_string(), "b".to_string(), "c".to_string()],
+            keys: vec!["a".to_string(), "b".to_string(), "c".to_string(), "d".to_string()],
             vals,
             grace_ms: 10_000,
             cluster_ids: vec!["c".to_string(); n],
             seeds: vec![vec![]; n],
             props: props.iter().cloned().collect(),
+            mapped_addr_nodes: vec![],
         }
     }
     pub fn has(&self, p: &str) -> bool {
@@ -188,12 +191,20 @@ fn node_id(i: usize, generation: u64) -> Id {
     Id::v4(&format!("n{i}"), generation, 10_000 + i as u16)
 }
 
+fn node_id_cfg(cfg: &Cfg, i: usize, generation: u64) -> Id {
+    let mut id = node_id(i, generation);
+    if cfg.mapped_addr_nodes.contains(&i) {
+        id.addr = format!("[::ffff:127.0.0.1]:{}", 10_000 + i).parse().unwrap();
+    }
+    id
+}
+
 impl World {
     pub fn new(cfg: Arc<Cfg>) -> World {
         let mut nodes = vec![];
         let mut ledgers = BTreeMap::new();
         for i in 0..cfg.n {
-            let id = node_id(i, 0);
+            let id = node_id_cfg(&cfg, i, 0);
             let opts = NodeOpts {
                 cluster_id: cfg.cluster_ids[i].clone(),
                 grace: Duration::from_millis(cfg.grace_ms),
@@ -826,7 +837,7 @@ impl World {
                 if let Some(hb) = self.owner_heartbeat(&old) {
                     self.final_heartbeat.insert(old.clone(), hb);
                 }
-                let id = node_id(i, old.generation + 1);
+                let id = node_id_cfg(&self.cfg, i, old.generation + 1);
                 let opts = NodeOpts {
                     cluster_id: self.cfg.cluster_ids[i].clone(),
                     grace: Duration::from_millis(self.cfg.grace_ms),
